@@ -578,7 +578,11 @@ func (e *env) check(cs *reqCase) (vkey, vdesc string, skipped bool) {
 	}
 	public := fixedPublic[matched] || (matched == "/" && publicPath(reqPath))
 	wrongMethod := rt.DeclKnown && cs.Method != rt.Decl
-	badCT := rt.DeclKnown && cs.Method == rt.Decl && modifies(rt.Decl) && cs.Body != "none" && cs.CT != "json"
+	// A content type other than JSON is refused with or without a body (a body-less
+	// request is accepted only without any content type: that is how the guard tells
+	// a script from an HTML form).  Body-less + JSON is refused by the code as well,
+	// which the statement does not demand; it is not judged.
+	badCT := rt.DeclKnown && cs.Method == rt.Decl && modifies(rt.Decl) && cs.CT != "json" && (cs.Body != "none" || cs.CT != "none")
 	// Never execute a real side-effecting handler of package home with valid
 	// credentials: only requests the guards must stop, or the listed harmless reads.
 	if rt.Src != "callback" && cc != "no" && !willRedirect && !public && !rt.PreInstall && matched != "/" && matched != "" {
@@ -645,7 +649,7 @@ func (e *env) check(cs *reqCase) (vkey, vdesc string, skipped bool) {
 				return fail("wrong-method-accepted", fmt.Sprintf("declared method %s: a %s request must be answered 405 and the handler must not run", rt.Decl, cs.Method))
 			}
 			if badCT && (ran || o.status != http.StatusUnsupportedMediaType) {
-				return fail("non-json-accepted", "a state-changing request with a body and a content type other than application/json must be answered 415 and the handler must not run")
+				return fail("non-json-accepted", "a state-changing request with a content type other than application/json must be answered 415 and the handler must not run")
 			}
 		}
 		c.Distinct("nontrivial", "public|"+caseKey(cs))
@@ -671,10 +675,10 @@ func (e *env) check(cs *reqCase) (vkey, vdesc string, skipped bool) {
 			}
 		} else if badCT {
 			if ran || inferredRun {
-				return fail("non-json-accepted", "the handler ran for a state-changing request with a body and a content type other than application/json")
+				return fail("non-json-accepted", "the handler ran for a state-changing request with a content type other than application/json")
 			}
 			if cc == "yes" && o.status != http.StatusUnsupportedMediaType {
-				return fail("non-json-not-415", fmt.Sprintf("a state-changing request with a body and a non-JSON content type must be answered 415, got %d", o.status))
+				return fail("non-json-not-415", fmt.Sprintf("a state-changing request with a non-JSON content type must be answered 415, got %d", o.status))
 			}
 		} else if cc == "yes" {
 			if ran {
